@@ -420,18 +420,28 @@ func (in *Interp) feasible(extra *Term) (map[string]uint64, string) {
 		in.stats.QuickSat++
 		return m, "sat"
 	}
-	if !in.enum2 {
-		// last resort before the solver: exhaustive evaluation over pairs of octet variables
+	tryEnum2 := func() (map[string]uint64, string, bool) {
+		if in.enum2 {
+			return nil, "", false
+		}
 		in.enum2 = true
 		e2 := in.simplifyBool(extra)
 		in.enum2 = false
 		if e2.IsConst() {
 			if e2.k == 0 {
-				return nil, "unsat"
+				return nil, "unsat", true
 			}
-			return in.ts.model, "sat"
+			return in.ts.model, "sat", true
 		} else if e2 != extra {
-			return in.feasible(e2)
+			m, r := in.feasible(e2)
+			return m, r, true
+		}
+		return nil, "", false
+	}
+	// table-heavy constraints over two octet variables: exhaustive evaluation beats the solver
+	if extra.size > 400 {
+		if m, r, ok := tryEnum2(); ok {
+			return m, r
 		}
 	}
 	in.syncPC()
@@ -466,6 +476,11 @@ func (in *Interp) feasible(extra *Term) (map[string]uint64, string) {
 		return m, r
 	}
 	in.sol.Pop()
+	if r == "unknown" && extra.size <= 400 {
+		if m2, r2, ok := tryEnum2(); ok {
+			return m2, r2
+		}
+	}
 	return m, r
 }
 
